@@ -17,7 +17,7 @@ pub fn info() -> PropInfo {
     PropInfo {
         id: "C04",
         level: "fault_enumeration",
-        rule: "Part A (in-process, controlled schedules): every labelled DAG on <=3 files x fault vertex x fault kind {failing command, missing include, unused tag, temp target in a missing directory, include of a non-UTF-8 file, a non-UTF-8 line in the middle of the source itself, output path is a directory (EISDIR; build, needed, verify, clean), tampered output under verify, deleted output under verify} x requested selections (faulty file requested / only reachable as a dependency / not required at all) x N in {1,2} x all gate schedules (DFS, eager receive) plus adversarial fixed orders; oracle: run must fail iff the faulty file is required, and when it reports success every required output equals the sequential model. Part B (CLI, real OS faults): chains and fan-ins of 3 files where one file's output () is a symlink to /dev/full (ENOSPC at flush), or RLIMIT_FSIZE cuts output writes or only a temp-file write after K bytes (EFBIG, SIGXFSZ ignored), or a command kills its own shell with a signal, x position {leaf, middle, root, unrelated sibling} x -j 1..8 x seeded hook delays; oracle: exit status non-zero, and exit 0 on the fault-free control. Non-trivial = the fault sits in a required file (it must fire); distinct = distinct (graph, fault, position, schedule trace | CLI configuration).",
+        rule: "Part A (in-process, controlled schedules): every labelled DAG on <=3 files x fault vertex x fault kind {failing command, missing include, unused tag, temp target in a missing directory, include of a non-UTF-8 file, a non-UTF-8 line in the middle of the source itself, output path is a directory (EISDIR; build, needed, verify, clean), tampered output under verify, deleted output under verify} x requested selections (faulty file requested / only reachable as a dependency / not required at all) x N in {1,2} x all gate schedules (DFS, eager receive) plus adversarial fixed orders; oracle: run must fail iff the faulty file is required, and when it reports success every required output equals the sequential model. Part B (CLI, real OS faults): chains and fan-ins of 3 files where one file's output () is a symlink to /dev/full (ENOSPC at flush), or RLIMIT_FSIZE cuts output writes or only a temp-file write after K bytes (EFBIG, SIGXFSZ ignored), or a command kills its own shell with a signal, x position {leaf, middle, root, unrelated sibling} x -j 1..8 x seeded hook delays; oracle: exit status non-zero, and exit 0 on the fault-free control. Non-trivial = the fault sits in a required file (it must fire); distinct = distinct (graph, fault, position, schedule trace | CLI configuration). Later additions: CLI verify of a tampered output in seven option spellings (-N verify, --needed verify, -r -N verify ...), RLIMIT_FSIZE inside a 20 KB directive result written last (include / command output, with and without -n, limits around the 8 KiB buffer), fixed-order cases in which the faulty file is reached only through a symbolic link in the requested directory.",
         assumptions: &["faults the OS cannot be made to produce here (EIO, permission errors as root) are not exercised", "/dev/full and RLIMIT_FSIZE behave as on a real full disk / quota for write(2)"],
         floor: (1500, 20_000),
         shards: (16, 16),
